@@ -45,6 +45,9 @@ func CheckLifecycle(w *World) {
 			}
 			if inc.Restarted {
 				for _, e := range es {
+					if e.Type == "Msg" && e.Detail == "become" {
+						break // from here on the new incarnation switches behaviour itself
+					}
 					if e.Beh != "" {
 						x.Fail("restart-resets-behavior", "%s incarnation %d (after restart) handled %s(%s) with the Become-d behaviour %q", path, i, e.Type, e.Detail, e.Beh)
 						break
@@ -54,6 +57,12 @@ func CheckLifecycle(w *World) {
 					if seenInst[es[0].Inst] {
 						x.Fail("restart-fresh-instance", "%s incarnation %d (after restart, provider configured) runs on an instance used before", path, i)
 					}
+				}
+			}
+			for _, e := range es {
+				if e.Inst != es[0].Inst {
+					x.Fail("one-instance-per-incarnation", "%s incarnation %d began on actor instance #%d but %s(%s) was handled by instance #%d (an instance of another incarnation)", path, i, es[0].Inst, e.Type, e.Detail, e.Inst)
+					break
 				}
 			}
 			for _, e := range es {
